@@ -655,6 +655,8 @@ class DimDomain:
                 if base not in ("add", "subtract"):
                     self.report("log-misuse", node, f"{base} of log-affine value")
             return self.note(b if a.poly else a)
+        if base in ("mod", "fmod", "remainder"):
+            return self.binop(ast.Mod(), args[0], args[1], node)
         if base in ("multiply", "divide", "true_divide"):
             return self.binop(ast.Mult() if base == "multiply" else ast.Div(), args[0], args[1], node)
         if base in ("square", "cbrt", "reciprocal", "power", "float_power"):
